@@ -171,6 +171,8 @@ class Exec:
         self.mul_facts = set()
         self.mul_apps = []        # (a, b, MUL(a,b)) for counterexample-guided refinement
         self.stats = {'forks': 0, 'merges': 0}
+        self.rec_layout = None   # layout of the record type behind `Rec` values: set to let the code look inside the record
+        self.rec_data_used = False
         self.deref_hook = None   # (ex, st, Ptr) -> value: plain loads through pointers into a shared region
         self.store_hook = None   # (ex, st, Ptr, path, value): plain stores through such pointers
         self.inline_drops = False   # interpret user Drop impls at drop terminators (C16: descriptors are closed on every path)
@@ -224,7 +226,11 @@ class Exec:
             if step[0] == 'idx':
                 raise EngineError('dynamic index not resolved')
         if isinstance(v, Rec):
-            raise EngineError('field access into an opaque record (data independence of the seqlock checks is violated)')
+            if self.rec_layout is None or not isinstance(step, int):
+                raise EngineError('field access into an opaque record (data independence of the seqlock checks is violated)')
+            # the code looks inside the record: its content is an uninterpreted function of (word, publication tag), so the
+            # solver is free to choose what the publications contain
+            return self.rec_field(v, step)
         if isinstance(v, Struct):
             if step >= len(v.f):
                 raise EngineError('field %d of %r' % (step, v))
@@ -236,6 +242,21 @@ class Exec:
         if v is None:
             raise EngineError('projection .%s of uninitialised value' % (step,))
         raise EngineError('field %r of %r' % (step, v))
+
+    def rec_field(self, rec, idx):
+        lay = self.rec_layout
+        f = lay['fields'][idx]
+        D = z3.Function('rec_data', z3.IntSort(), z3.IntSort(), z3.IntSort())
+        self.rec_data_used = True
+        off, size = f['offset'], f['size']
+        if size % 8 == 0 and off % 8 == 0:
+            ws = [D(z3.IntVal(off // 8 + i), rec.f[off // 8 + i]) for i in range(size // 8)]
+            return ws[0] if len(ws) == 1 else Struct(ws)
+        if size == 4:
+            H = z3.Function('rec_data_half', z3.IntSort(), z3.IntSort(), z3.IntSort(), z3.IntSort())
+            val = H(z3.IntVal(off // 8), z3.IntVal((off % 8) // 4), rec.f[off // 8])
+            return Enum(val, {}) if f['name'] == 'clock_status' else val
+        raise EngineError('field of the record with an unexpected size')
 
     def deref(self, st, r):
         if isinstance(r, Ref):
